@@ -202,6 +202,192 @@ def rule_tokens_have_rules(ctx: Ctx, rid="C07.TOKEN-RULES"):
                       f"terminal {t} is used by the grammar but no lexer rule emits it", text=t)
 
 
+def reference_tokens():
+    """{token name: regex of its lexeme} from reference/tokens.txt (transcribed from the documented terminal table)."""
+    from pyab_static.core import VERIF
+    out = {}
+    for line in (VERIF / "reference" / "tokens.txt").read_text().splitlines():
+        if not line.strip() or line.startswith("#"):
+            continue
+        name, rx_ = line.split(None, 1)
+        out[name] = rx_.strip()
+    if len(out) < 20:
+        raise AnalysisError("reference/tokens.txt: fewer than 20 documented tokens")
+    return out
+
+
+def rule_token_spelling(ctx: Ctx, rid="C06.TOKEN-SPELLING", directions=("lexer<=doc", "doc<=lexer")):
+    """For every fixed-spelling terminal of the documented table, product of the lexer's master automaton with an
+    automaton of the documented spelling:
+      lexer<=doc  no input makes the lexer hand the parser this token with a text outside the documented spelling
+                  (a lone '=' taken for '=='): every final match of an emitting rule is judged by the reference monitor;
+      doc<=lexer  every documented spelling, given as the whole input, is taken as exactly this token."""
+    from pyab_static.rx import EOF, Lexicon, Matcher, _bfs, _path, _text, build_nfa
+    import re as _re
+    lc = ctx.main
+    ref = reference_tokens()
+    pats = [r.pattern for r in lc.rules]
+    names = [r.name for r in lc.rules]
+    remap_by_rule = {}
+    for rule, lit, new in lc.remaps:
+        if lit is not None and new:
+            remap_by_rule.setdefault(rule, {})[lit] = new
+    n = 0
+    for tok, doc in ref.items():
+        # emitting sources of this token: the rule of that name (minus remapped values) and remap entries
+        sources = []
+        r = lc.rule(tok)
+        if r is not None and r.emits:
+            if r.action and r.action.type_rewrites:
+                raise AnalysisError(f"{lc.name}.{tok}: the action re-types its token; spelling cannot be decided")
+            sources.append((lc.index(tok), sorted(remap_by_rule.get(tok, {}))))
+        remap_lits = [(rule, lit) for rule, m_ in remap_by_rule.items() for lit, new in m_.items() if new == tok]
+        con = f"language/lexer.py:{lc.name}.{tok}"
+        if not sources and not remap_lits:
+            raise AnalysisError(f"documented token {tok} has no emitting lexer rule (anchor vanished)")
+        n += 1
+        # one Lexicon whose alphabet also separates the character sets of all reference patterns
+        cache = ctx.__dict__.setdefault("_spell_lex", {})
+        if lc.name not in cache:
+            cache[lc.name] = Lexicon(pats, names, extra_patterns=sorted(set(ref.values())))
+        L = cache[lc.name]
+        R = cache.setdefault((lc.name, doc), Matcher(build_nfa([doc]), L.alpha, cut=False))
+        rstart = R.starts()[0]
+
+        def accepts(q, a):
+            return R.step(q, a)[1] is not None
+        site = (r.site if r is not None else lc.rule(remap_lits[0][0]).site)
+        if "lexer<=doc" in directions:
+            bad = None
+            for idx, excluded in sources:
+                # excluded lexemes are emitted under another name: the monitor carries the set of excluded literals
+                # the text read so far is still a prefix of (a bounded state: positions in those literals)
+                def mon_step(q, a, excluded=excluded):
+                    rq, alive, pos = q
+                    if alive:
+                        alive = frozenset(x for x in alive if pos < len(x) and x[pos] == chr(a))
+                    rq2 = R.step((rq, None), a)[0][0]        # reference spellings have no assertions: threads suffice
+                    return (rq2, alive, min(pos + 1, 64) if alive else 0)
+
+                def judge(rule, q, q2, a, idx=idx, excluded=excluded):
+                    if rule != idx:
+                        return None
+                    rq, alive, pos = q
+                    if any(len(x) == pos for x in alive):
+                        return None
+                    return None if accepts((rq, None), a if a is not None else EOF) else "outside"
+                found = L.monitor_search((rstart[0], frozenset(excluded), 0), mon_step, judge)
+                if "outside" in found:
+                    w = found["outside"]
+                    m_ = L.select(w)
+                    bad = (w, w[:m_[1]] if m_ else w)
+                    break
+            for rule, lit in remap_lits:
+                if bad is None and R.run(lit) != (0, len(lit)):
+                    m_ = L.select(lit)
+                    if m_ is not None and lc.rules[m_[0]].name == rule and m_[1] == len(lit):
+                        bad = (lit, lit)
+            ctx.rep.check(bad is None, rid, con + "[lexer<=doc]",
+                          f"every text the lexer emits as {tok} matches the documented spelling {doc!r}" if bad is None else
+                          f"on input {bad[0]!r} the lexer hands the parser {tok} for the text {bad[1]!r}, which is not the documented "
+                          f"spelling {doc!r}: a text outside the language is read as this token", witness=bad[0] if bad else None,
+                          site=site, text=f"{tok} accepts more than {doc}")
+        if "doc<=lexer" in directions:
+            M = L.M
+            emitters = {idx for idx, _ in sources} | {lc.index(rule) for rule, _ in remap_lits}
+
+            def succ(node):
+                if node[0] == "end":
+                    return
+                st, rq, last, k = node
+                if k > 24:
+                    return
+                for a in L.atoms:
+                    rq2, _ = R.step(rq, a)
+                    if Matcher.dead(rq2):
+                        continue
+                    st2, ev = (st, None) if Matcher.dead(st) else M.step(st, a)
+                    yield a, (st2, rq2, (ev, False) if ev is not None else ((last[0], False) if last else None), k + 1)
+                if k and accepts(rq, EOF):
+                    ev = None if Matcher.dead(st) else M.step(st, EOF)[1]
+                    yield EOF, ("end", (ev, True) if ev is not None else last)
+            parent = _bfs([(s0, rstart, None, 0) for s0 in M.starts()], succ)
+            miss = None
+            nwords = 0
+            for node in parent:
+                if node[0] != "end":
+                    continue
+                nwords += 1
+                fin = node[1]
+                w = _text(_path(parent, node))
+                okk = fin is not None and fin[1] and fin[0] in emitters
+                if okk:
+                    # the final type after remapping must be this token
+                    rn = names[fin[0]]
+                    typ = remap_by_rule.get(rn, {}).get(w, rn)
+                    okk = typ == tok
+                if not okk and (miss is None or len(w) < len(miss[0])):
+                    got = "no token" if fin is None else (names[fin[0]] + ("" if fin[1] else " on a shorter prefix"))
+                    miss = (w, got)
+            if not nwords:
+                raise AnalysisError(f"reference spelling {doc!r} of {tok} derives no word")
+            ctx.rep.check(miss is None, rid, con + "[doc<=lexer]",
+                          f"every documented spelling {doc!r} is taken whole as {tok}" if miss is None else
+                          f"the documented spelling {miss[0]!r} of {tok} is lexed as {miss[1]}", witness=miss[0] if miss else None,
+                          site=site, text=f"{tok} accepts less than {doc}")
+    ctx.rep.floor("documented fixed-spelling tokens compared with the lexer", n, 20)
+
+
+def rule_literal_action_total(ctx: Ctx, rid="C15.LITERAL-ACTION-TOTAL", tokens=("STRING_LITERAL",)):
+    """Every text the pattern of a literal rule matches becomes a token: neither the action nor a helper of the lexer
+    module it calls has a `raise`, nor looks the text (or a piece of it) up in a module-level table with `[...]`
+    outside a try/`in` guard (a lookup table without a fallback rejects the characters it does not list)."""
+    lc = ctx.main
+    m = lc.mod
+    tables = {}
+    for st in m.tree.body:
+        if isinstance(st, (ast.Assign, ast.AnnAssign)) and isinstance(getattr(st, "value", None), (ast.Dict, ast.DictComp)):
+            for t in (st.targets if isinstance(st, ast.Assign) else [st.target]):
+                if isinstance(t, ast.Name):
+                    tables[t.id] = st
+    n = 0
+    for r in lc.rules:
+        if r.name not in tokens or r.func is None:
+            continue
+        n += 1
+        seen, todo, probs = set(), [r.func], []
+        while todo:
+            f = todo.pop()
+            if id(f) in seen:
+                continue
+            seen.add(id(f))
+            guarded = set()
+            for t in ast.walk(f):
+                if isinstance(t, ast.Try) and t.handlers:
+                    guarded |= {id(x) for b_ in t.body for x in ast.walk(b_)}
+                if isinstance(t, (ast.If, ast.IfExp)) and any(isinstance(o_, (ast.In, ast.NotIn)) for c_ in ast.walk(t.test)
+                                                             if isinstance(c_, ast.Compare) for o_ in c_.ops):
+                    guarded |= {id(x) for x in ast.walk(t)}
+            for x in ast.walk(f):
+                if isinstance(x, ast.Raise) and id(x) not in guarded:
+                    probs.append((x, f"`{norm(x)[:60]}` in {getattr(f, 'name', 'lambda')}"))
+                if isinstance(x, ast.Subscript) and isinstance(x.ctx, ast.Load) and isinstance(x.value, ast.Name) \
+                        and x.value.id in tables and not isinstance(x.slice, ast.Constant) and id(x) not in guarded:
+                    probs.append((x, f"`{norm(x)[:60]}` looks a piece of the text up in the table {x.value.id} without a fallback"))
+                if isinstance(x, ast.Call):
+                    d = dotted(x.func)
+                    if d and d in m.functions():
+                        todo.append(m.functions()[d])
+        con = f"language/lexer.py:{lc.name}.{r.name}"
+        if probs:
+            x, why = probs[0]
+            ctx.rep.bad(rid, con, f"the action of {r.name} can reject a text its pattern matched: {why}", site=m.site(x), text=norm(x)[:100])
+        else:
+            ctx.rep.ok(rid, con, f"no raise and no unguarded table lookup in the action of {r.name} or the helpers it calls", site=r.site)
+    if not n:
+        raise AnalysisError(f"no literal rule among {tokens} has an action (anchor vanished)")
+
+
 def rule_id_total(ctx: Ctx, rid="C07.ID-TOTAL"):
     lc = ctx.main
     r = lc.rules[id_rule(ctx)]
